@@ -143,6 +143,31 @@ func (t Task) RunRaw() (obs string, raw string) {
 			valid = satisfies(t.F, s.Model())
 		}
 		return fmt.Sprintf("%v model-valid=%v", st, valid), fmt.Sprintf("%v %s cert=%v stats=%+v", st, m, lines, s.Stats)
+	case "solve-cp":
+		// pigeonhole PHP(N+1, N) in clausal form, solved with cutting planes and a small limit on the learned-constraint
+		// database, so that learned PB constraints are deleted during the run (N=4: 28 conflicts, 3 deletions)
+		holes := t.N
+		var f [][]int
+		v := func(p, h int) int { return p*holes + h + 1 }
+		for p := 0; p <= holes; p++ {
+			var l []int
+			for h := 0; h < holes; h++ {
+				l = append(l, v(p, h))
+			}
+			f = append(f, l)
+		}
+		for h := 0; h < holes; h++ {
+			for p := 0; p <= holes; p++ {
+				for q := p + 1; q <= holes; q++ {
+					f = append(f, []int{-v(p, h), -v(q, h)})
+				}
+			}
+		}
+		s := solver.New(solver.ParseSlice(f))
+		s.CuttingPlanes = true
+		s.VerifSetNbMax(4)
+		st := s.Solve()
+		return fmt.Sprintf("%v deleted-some=%v", st, s.Stats.NbDeleted > 0), fmt.Sprintf("%v stats=%+v", st, s.Stats)
 	case "count":
 		pb := solver.ParseSliceNb(cp(t.F), t.N)
 		o := fmt.Sprintf("count=%d", solver.New(pb).CountModels())
